@@ -520,6 +520,9 @@ func (x *Exec) evalBinary(e gcl.Binary, c *evalCtx) (typed, error) {
 }
 
 func (x *Exec) evalCall(e gcl.Call, c *evalCtx) (typed, error) {
+	if e.Fun == "called" || e.Fun == "callres" {
+		return x.evalCallRef(e, c)
+	}
 	var args []typed
 	for _, a := range e.Args {
 		v, err := x.evalTyped(a, c)
@@ -609,7 +612,14 @@ func (x *Exec) evalCall(e gcl.Call, c *evalCtx) (typed, error) {
 		if len(args) != n {
 			return typed{}, fmt.Errorf("ghost %s: wrong number of arguments", e.Fun)
 		}
-		hn, hs := x.ghostHeap(g)
+		var sorts []string
+		for _, a := range args {
+			if a.pend != nil {
+				return typed{}, fmt.Errorf("ghost %s: argument without a determined sort", e.Fun)
+			}
+			sorts = append(sorts, a.t.Sort)
+		}
+		hn, hs := x.ghostHeap(g, sorts)
 		v := x.heap(x.curState(c), hn, hs)
 		for _, a := range args {
 			v = smt.Select(v, a.t)
@@ -628,8 +638,13 @@ func (x *Exec) evalCall(e gcl.Call, c *evalCtx) (typed, error) {
 				c2.env[k] = v
 			}
 			for i, p := range sp.Params {
-				c2.env[p[0]] = binding{args[i].t, args[i].typ}
+				typ := args[i].typ
+				if gt := x.specParamType(p[1], sp.Pkg); gt != nil {
+					typ = gt
+				}
+				c2.env[p[0]] = binding{args[i].t, typ}
 			}
+			c2.pkg = sp.Pkg
 			c2.fr = nil // spec bodies see their parameters, ghost state and globals only
 			return x.evalTyped(sp.Body, &c2)
 		}
@@ -666,7 +681,30 @@ func (x *Exec) evalCall(e gcl.Call, c *evalCtx) (typed, error) {
 	return typed{}, fmt.Errorf("unknown function %s in contract", e.Fun)
 }
 
+// specParamType resolves a Go type written as a spec parameter sort: "*T" or "T" for a named type of the package.
+func (x *Exec) specParamType(s, pkg string) types.Type {
+	ptr := strings.HasPrefix(s, "*")
+	name := strings.TrimPrefix(s, "*")
+	if gt := x.specGoType(s); gt != nil {
+		return gt
+	}
+	for _, p := range x.P.Prog.AllPackages() {
+		if p.Pkg.Path() == pkg {
+			if o, ok := p.Pkg.Scope().Lookup(name).(*types.TypeName); ok {
+				if ptr {
+					return types.NewPointer(o.Type())
+				}
+				return o.Type()
+			}
+		}
+	}
+	return nil
+}
+
 func (x *Exec) specSort(s string) string {
+	if strings.HasPrefix(s, "*") {
+		return smt.Int
+	}
 	switch s {
 	case "Int", "Ref", "Err", "int":
 		return smt.Int
@@ -706,3 +744,52 @@ func sortTag(s string) string {
 }
 
 func tv(t smt.T, typ types.Type) typed { return typed{t: t, typ: typ} }
+
+// evalCallRef: called(F, n) - the n-th call of F (in source order) was executed on this path;
+// callres(F, n, k) - the k-th result of that call (unconstrained if it was not executed).
+func (x *Exec) evalCallRef(e gcl.Call, c *evalCtx) (typed, error) {
+	if len(e.Args) < 2 {
+		return typed{}, fmt.Errorf("%s needs a callee name and an ordinal", e.Fun)
+	}
+	name := e.Args[0].String()
+	ordLit, ok := e.Args[1].(gcl.IntLit)
+	if !ok {
+		return typed{}, fmt.Errorf("%s: ordinal must be a literal", e.Fun)
+	}
+	ord, _ := strconv.Atoi(ordLit.Val)
+	var instr ssa.CallInstruction
+	n := 0
+	for _, ci := range x.allCalls() {
+		if matchCallee(x.calleeKey(ci.Common()), name) {
+			if n == ord {
+				instr = ci
+				break
+			}
+			n++
+		}
+	}
+	if instr == nil {
+		return typed{}, fmt.Errorf("%s: the function has no call %d of %s", e.Fun, ord, name)
+	}
+	res, done := c.st.callRes[instr]
+	if e.Fun == "called" {
+		return tv(smt.BoolLit(done), types.Typ[types.Bool]), nil
+	}
+	if len(e.Args) != 3 {
+		return typed{}, fmt.Errorf("callres needs a result index")
+	}
+	kLit, ok := e.Args[2].(gcl.IntLit)
+	if !ok {
+		return typed{}, fmt.Errorf("callres: result index must be a literal")
+	}
+	k, _ := strconv.Atoi(kLit.Val)
+	rt := instr.Common().Signature().Results()
+	if k >= rt.Len() {
+		return typed{}, fmt.Errorf("callres: %s has %d results", name, rt.Len())
+	}
+	if !done || k >= len(res) {
+		v := x.ctx.Fresh("nocall", x.sortOf(rt.At(k).Type()))
+		return tv(v, rt.At(k).Type()), nil
+	}
+	return tv(res[k], rt.At(k).Type()), nil
+}
